@@ -141,7 +141,7 @@ def observe(path, name=None, as_uid=None):
     st = os.lstat(path)
     n = {"name": name if name is not None else os.path.basename(path), "st_mode": st.st_mode, "ino": st.st_ino,
          "nlink": st.st_nlink, "uid": st.st_uid, "gid": st.st_gid, "size": st.st_size, "blocks": st.st_blocks,
-         "mtime": int(st.st_mtime), "dev": st.st_dev, "path": path}
+         "mtime": st.st_mtime_ns // 1000000000, "dev": st.st_dev, "path": path}
     if stat.S_ISDIR(st.st_mode):
         n["kind"] = "dir"
         try:
